@@ -6,7 +6,7 @@ import vlib
 
 LEVEL = "proof"
 PROPS = "Convert/Props_C15.v"
-COQ_FILES = ["Convert/Bytes.v", "Convert/Generated_PurlTypes.v", "Convert/Purl.v", "Convert/Pkg.v", "Convert/Proto.v",
+COQ_FILES = ["Convert/Bytes.v", "Convert/Generated_PurlTypes.v", "Convert/Generated_ProtoMeta.v", "Convert/Purl.v", "Convert/Pkg.v", "Convert/Proto.v",
              "Convert/Sbom.v", "Convert/SbomRoundtrip.v", "Convert/Cases15.v", "Convert/BytesProofs.v", "Convert/Proofs.v",
              "Convert/SbomRoundtripProofs.v", "Convert/Props_C15.v"]
 THEOREMS = ["spdx_import_exact", "cdx_import_exact", "sbom_roundtrip_spdx_on_D", "sbom_roundtrip_cdx_on_D",
